@@ -1583,6 +1583,17 @@ class Interp:
                            uid=500000 + (ua * 997 + ub) % 400000)
         if isinstance(op, ast.Sub) and _isnum(a) and _isnum(b):
             return a - b
+        if isinstance(op, ast.Sub):
+            num = lambda x: isinstance(x, Sym) and x.kind in ("int", "float")  # noqa: E731
+            if num(a) and _isnum(b) and b == 0:
+                return a
+            if (num(a) or _isnum(a)) and (num(b) or _isnum(b)) and not isinstance(a, bool) and not isinstance(b, bool):
+                # a difference of literal values: a new value that no literal of the source stands for
+                k = "int" if all((isinstance(x, Sym) and x.kind == "int") or isinstance(x, int) for x in (a, b)) else "float"
+                ua = a.uid if isinstance(a, Sym) else int(a) % 991
+                ub = b.uid if isinstance(b, Sym) else int(b) % 991
+                return Sym(k, f"({_describe(a)}-{_describe(b)})", coerced=(("arith", "difference", "arithmetic on literal values", site),),
+                           uid=500000 + (ua * 991 + ub * 7 + 3) % 400000)
         if _isnum(a) and _isnum(b) and isinstance(op, (ast.FloorDiv, ast.Mod, ast.Div, ast.Pow, ast.LShift, ast.RShift, ast.BitAnd, ast.BitOr, ast.BitXor)):
             import operator as _op
             f_ = {ast.FloorDiv: _op.floordiv, ast.Mod: _op.mod, ast.Div: _op.truediv, ast.Pow: _op.pow, ast.LShift: _op.lshift,
@@ -1742,6 +1753,13 @@ class Interp:
             if isinstance(o, int) and o < m.n:
                 return False
             return self.choose(f"len(...) == {o!r} at {site}")
+        if (isinstance(a, Sym) and a.kind in ("int", "float") and _isnum(b)) or (isinstance(b, Sym) and b.kind in ("int", "float") and _isnum(a)):
+            # a literal of the source (or a value computed from literals) against a particular number: either may be the case,
+            # except where the kinds exclude it (an int is never equal to a non-integral number)
+            sy, c = (a, b) if isinstance(a, Sym) else (b, a)
+            if isinstance(c, bool) or c != c or c in (float("inf"), float("-inf")) or (sy.kind == "int" and float(c) != int(c)):
+                return False
+            return self.choose(f"{_describe(sy)} == {c!r} at {site}")
         if isinstance(a, Sym) and isinstance(b, Sym):
             if a.kind == "ident" and b.kind == "ident":
                 return a.name == b.name
